@@ -4,6 +4,8 @@ From SV Require Import Lib.Base Gen.WireFields Model.WireBase Proofs.WireBasePro
 From SV Require Import Model.WireEth Proofs.WireEthProofs.
 From SV Require Import Model.WireArp Proofs.WireArpProofs.
 From SV Require Import Model.WireUdp Proofs.WireUdpProofs.
+From SV Require Import Model.WireIpv4 Proofs.WireIpv4Proofs.
+From SV Require Import Model.WireIpv6 Proofs.WireIpv6Proofs.
 From SV Require Import Props.C06.
 
 Check (C06_eth_emit_no_panic : forall r b,
@@ -68,3 +70,53 @@ Check (C06_udp_reparse : forall sum_ok sum_fill is_v4 tx rx bs r p,
   forall b, blen b = udp_buffer_len r p ->
     exists bs', udp_emit sum_fill tx r p b = Ok bs' /\
                 udp_parse sum_ok is_v4 rx bs' = Ok r /\ udp_payload bs' = Ok p).
+
+Check (C06_ipv4_emit_no_panic : forall (sum_ok : list Z -> bool) sum_fill tx r b,
+  ipv4_wf r = true -> blen b = ipv4_buffer_len r -> ipv4_emit sum_fill tx r b <> Panic).
+
+Check (C06_ipv4_emit_ignores_old_bytes : forall (sum_ok : list Z -> bool) sum_fill tx r b1 b2,
+  ipv4_wf r = true -> blen b1 = ipv4_buffer_len r -> blen b2 = ipv4_buffer_len r ->
+  ipv4_emit sum_fill tx r b1 = ipv4_emit sum_fill tx r b2).
+
+Check (C06_ipv4_emit_frame : forall (sum_ok : list Z -> bool) sum_fill tx r h t,
+  ipv4_wf r = true -> blen h = ipv4_buffer_len r ->
+  ipv4_emit sum_fill tx r (h ++ t) = omap (fun x => x ++ t) (ipv4_emit sum_fill tx r h)).
+
+Check (C06_ipv4_roundtrip : forall sum_ok sum_fill tx rx r b,
+  ipv4_cksum_link sum_ok sum_fill -> ipv4_wf r = true -> (rx = true -> tx = true) ->
+  blen b = ipv4_buffer_len r ->
+  exists bs, ipv4_emit sum_fill tx r b = Ok bs /\ blen bs = ipv4_buffer_len r /\
+    forall payload, blen payload = ipv4_payload_len r ->
+      ipv4_parse sum_ok rx (bs ++ payload) = Ok r /\ ipv4_payload (bs ++ payload) = Ok payload).
+
+Check (C06_ipv4_reparse : forall sum_ok sum_fill tx rx bs r,
+  ipv4_cksum_link sum_ok sum_fill -> bytes_ok bs = true -> (rx = true -> tx = true) ->
+  ipv4_parse sum_ok rx bs = Ok r ->
+  ipv4_wf r = true /\
+  forall b, blen b = ipv4_buffer_len r ->
+    exists bs', ipv4_emit sum_fill tx r b = Ok bs' /\
+      forall payload, blen payload = ipv4_payload_len r -> ipv4_parse sum_ok rx (bs' ++ payload) = Ok r).
+
+Check (C06_ipv6_emit_no_panic : forall r b,
+  ipv6_wf r = true -> blen b = ipv6_buffer_len r -> ipv6_emit r b <> Panic).
+
+Check (C06_ipv6_emit_ignores_old_bytes : forall r b1 b2,
+  ipv6_wf r = true -> blen b1 = ipv6_buffer_len r -> blen b2 = ipv6_buffer_len r ->
+  ipv6_emit r b1 = ipv6_emit r b2).
+
+Check (C06_ipv6_emit_frame : forall r h t,
+  ipv6_wf r = true -> blen h = ipv6_buffer_len r ->
+  ipv6_emit r (h ++ t) = omap (fun x => x ++ t) (ipv6_emit r h)).
+
+Check (C06_ipv6_roundtrip : forall r b,
+  ipv6_wf r = true -> blen b = ipv6_buffer_len r ->
+  exists bs, ipv6_emit r b = Ok bs /\ blen bs = ipv6_buffer_len r /\
+    forall payload, blen payload = ipv6_payload_len r ->
+      ipv6_parse (bs ++ payload) = Ok r /\ ipv6_payload (bs ++ payload) = Ok payload).
+
+Check (C06_ipv6_reparse : forall bs r,
+  bytes_ok bs = true -> ipv6_parse bs = Ok r ->
+  ipv6_wf r = true /\
+  forall b, blen b = ipv6_buffer_len r ->
+    exists bs', ipv6_emit r b = Ok bs' /\
+      forall payload, blen payload = ipv6_payload_len r -> ipv6_parse (bs' ++ payload) = Ok r).
